@@ -14,7 +14,8 @@ pub const DEF: PropDef = PropDef {
     rule: "Cases are (reader configuration, byte image, history). Small-scope part, enumerated completely: every reachable buffer state of the \
 buffered reader (bits_in_buffer = 0..2W-1, built by a read, an optional look-ahead refill via peek(W) and a second read) resp. every bit offset \
 0..63 of the unbuffered reader x every next operation (read_bits n=0..=64, read_unary with the next one at every distance 0..=3W, skip_bits \
-0..=2W+2 and larger, peek_bits 1..=W (<=32 unbuffered), clone-and-diverge) x sentinel reads, on several data patterns, endiannesses and backends. \
+0..=2W+2 and larger, peek_bits 1..=W (<=32 unbuffered), clone-and-diverge) x sentinel reads, on several data patterns, endiannesses and backends; on backends with a real end additionally with \
+the data ending in the very word in which the operation ends. \
 Random part: proptest byte strings decoded into (configuration, pattern image, history of reads/unaries/skips/peeks/clones), shrunk on failure. \
 Oracle: the bit model from the model position: value of every read and peek (peek repeated), exact advance, clone independence, zeros beyond the \
 end of zero-extending backends, Err (never a value) when a strict backend runs out. Non-trivial: an operation refilled a non-empty buffer, or \
@@ -26,6 +27,7 @@ unbuffered reader needed two words; distinct = distinct (configuration, image, h
     ],
     run,
     replay,
+    from_bytes: Some(from_bytes),
 };
 
 pub fn check_case(c: &Case, env: &Env) -> CheckResult {
@@ -151,7 +153,27 @@ fn run(ctx: &Ctx, env: &Env) -> Stats {
                                 let mut ops = pre.clone();
                                 ops.push(nx);
                                 ops.extend_from_slice(&sentinel);
-                                part.check(&RCase { cfg, img: Img::Pattern { pat, bits, seed, zero_from: None, one_at: None }, cut_words: None, ops }, &f);
+                                part.check(&RCase { cfg, img: Img::Pattern { pat, bits, seed, zero_from: None, one_at: None }, cut_words: None, ops, free: false }, &f);
+                            }
+                        }
+                        // on backends with a real end: the data stops right after the word in which the operation
+                        // ends, so an operation that needs no bit beyond it must not fetch another word
+                        if !backend.zero_ext() {
+                            let (pat, seed) = pats[0];
+                            for n in 0..=(2 * w + 2) {
+                                for kind in 0..2 {
+                                    if kind == 0 && n > 64 {
+                                        continue;
+                                    }
+                                    let nx = if kind == 0 { ROp::Bits(n as u8) } else { ROp::Skip(n as u32) };
+                                    let words = (used + n).div_ceil(w).max(used.div_ceil(w));
+                                    // a look-ahead refill in the prefix needs its own word
+                                    let words = if pre.iter().any(|o| matches!(o, ROp::Peek(_))) { words.max((used + w).div_ceil(w).max(1)) } else { words };
+                                    let mut ops = pre.clone();
+                                    ops.push(nx);
+                                    ops.push(ROp::Pos);
+                                    part.check(&RCase { cfg, img: Img::Pattern { pat, bits, seed, zero_from: None, one_at: None }, cut_words: Some(words as u32), ops, free: false }, &f);
+                                }
                             }
                         }
                         // unary with the next one at every distance
@@ -160,7 +182,7 @@ fn run(ctx: &Ctx, env: &Env) -> Stats {
                             ops.push(ROp::Unary);
                             ops.extend_from_slice(&sentinel);
                             let img = Img::Pattern { pat: Pat::Random, bits, seed: 5 + ctx.seed, zero_from: Some(used as u32), one_at: Some((used + d) as u32) };
-                            part.check(&RCase { cfg, img, cut_words: None, ops }, &f);
+                            part.check(&RCase { cfg, img, cut_words: None, ops, free: false }, &f);
                         }
                     }
                     part.finish()
@@ -189,10 +211,16 @@ pub fn gen_case(s: &mut Src, max_ops: usize) -> Case {
     let seed = s.u16() as u64;
     let n = s.range(1, max_ops);
     let ops = (0..n).map(|_| gen_rop_prim(s, cfg.r, 0)).collect();
-    RCase { cfg, img: Img::Pattern { pat, bits, seed, zero_from: None, one_at: None }, cut_words: None, ops }
+    RCase { cfg, img: Img::Pattern { pat, bits, seed, zero_from: None, one_at: None }, cut_words: None, ops, free: false }
 }
 
 fn replay(v: &serde_json::Value, env: &Env) -> CheckResult {
     let c: Case = serde_json::from_value(v.clone()).map_err(|e| Failure::new("replay/parse", e.to_string()))?;
     run_guarded(&c, &|c: &Case| check_case(c, env))
+}
+
+fn from_bytes(data: &[u8], env: &Env) -> (serde_json::Value, CheckResult) {
+    let c = gen_case(&mut Src::new(data), 60);
+    let r = run_guarded(&c, &|c| check_case(c, env));
+    (serde_json::to_value(&c).unwrap_or(serde_json::Value::Null), r)
 }
